@@ -63,7 +63,8 @@ struct RefBlock {
     // things the statement leaves open
     bool droppedLeadingLines = false;  ///< whitespace-preceded lines before the first field (RFC 9112 2.2: ignore or reject)
     bool nulOnlyInDroppedLines = false;
-    bool crOnlyLineOnlyInDroppedLines = false; ///< every CR-only line sits among those whitespace-preceded first lines
+    bool crOnlyLineOnlyInDroppedLines = false;
+    bool crOnlyLinesAllBeforeContinuation = false; ///< the only non-field lines are CR-only lines followed by a continuation line ///< every CR-only line sits among those whitespace-preceded first lines
     bool anyFold = false, anyBareCr = false, anyLfOnly = false, anyDuplicate = false, anyWsBeforeColon = false, anyEmptyValue = false, anyEdgeVtFf = false;
 };
 
@@ -84,8 +85,10 @@ static RefBlock refParse(const std::string &raw, const bool request)
 
     bool nulInKept = false, nulInDropped = false;
     bool crOnlyLine = false, notAField = false, wsBeforeColonInRequest = false, framingFolded = false, framingBareCr = false;
+    struct Logical { std::vector<std::string> segs; bool bareCr = false, folded = false, crOnly = false; };
+    std::vector<Logical> logical;
     bool sawField = false;
-    bool crOnlyInDropped = false, crOnlyInKept = false;
+    bool crOnlyInDropped = false, crOnlyInKept = false, crOnlyStandalone = false, notAFieldOther = false;
     for (const auto &line : lines) {
         std::string content = line;
         if (!content.empty() && content.back() == '\r') content.pop_back();
@@ -110,25 +113,49 @@ static RefBlock refParse(const std::string &raw, const bool request)
 
         if (!content.empty() && isWsp(content[0])) {
             // obs-fold continuation (sawField is true here)
-            if (!b.fields.empty()) {
-                RefField &f = b.fields.back();
-                f.folded = true;
-                if (bareCr) f.bareCr = true;
-                f.segments.push_back(text);
-                b.anyFold = true;
-            }
+            Logical &l = logical.back();
+            l.folded = true;
+            if (bareCr) l.bareCr = true;
+            l.segs.push_back(text);
+            b.anyFold = true;
             continue;
         }
         sawField = true;
-        const size_t colon = content.find(':');
+        Logical l;
+        l.bareCr = bareCr;
+        l.crOnly = onlyCr;
+        l.segs.push_back(text);
+        logical.push_back(l);
+    }
+
+    // a field is its first line plus its continuation lines; the name ends at the first colon of the whole
+    for (const auto &l : logical) {
         RefField f;
-        if (colon == std::string::npos || colon == 0) {
+        f.folded = l.folded;
+        f.bareCr = l.bareCr;
+        std::string name;
+        size_t k = 0;
+        bool found = false;
+        for (; k < l.segs.size(); ++k) {
+            const size_t colon = l.segs[k].find(':');
+            if (colon != std::string::npos) {
+                name += l.segs[k].substr(0, colon);
+                f.segments.push_back(l.segs[k].substr(colon + 1));
+                found = true;
+                break;
+            }
+            name += l.segs[k];
+            name += ' '; // the obs-fold
+        }
+        if (l.crOnly && !l.folded) crOnlyStandalone = true;
+        if ((!found || name.empty()) && !(l.crOnly && l.folded)) notAFieldOther = true;
+        if (!found || name.empty()) {
             notAField = true;
             f.name = "?";
-            b.fields.push_back(f); // keeps later continuation lines attached to something
+            b.fields.push_back(f);
             continue;
         }
-        std::string name = content.substr(0, colon);
+        for (++k; k < l.segs.size(); ++k) f.segments.push_back(l.segs[k]);
         if (isSpaceLike(static_cast<unsigned char>(name.back()))) {
             f.wsBeforeColon = true;
             b.anyWsBeforeColon = true;
@@ -137,10 +164,8 @@ static RefBlock refParse(const std::string &raw, const bool request)
         }
         bool token = !name.empty();
         for (const unsigned char ch : name) if (!isTchar(ch)) token = false;
-        if (!token) notAField = true;
+        if (!token) { notAField = true; notAFieldOther = true; }
         f.name = name;
-        f.bareCr = bareCr;
-        f.segments.push_back(text.substr(colon + 1));
         b.fields.push_back(f);
     }
     for (const auto &f : b.fields) {
@@ -159,6 +184,7 @@ static RefBlock refParse(const std::string &raw, const bool request)
     if (notAField) b.mustReject.push_back("line-is-not-a-field");
     b.nulOnlyInDroppedLines = nulInDropped && !nulInKept;
     b.crOnlyLineOnlyInDroppedLines = crOnlyInDropped && !crOnlyInKept;
+    b.crOnlyLinesAllBeforeContinuation = crOnlyInKept && !crOnlyInDropped && !crOnlyStandalone && !notAFieldOther;
     return b;
 }
 
@@ -303,6 +329,8 @@ static vp::Verdict check(const Case &c, vp::Ctx &ctx)
             // was it the whitespace-preceded-line rule that swallowed the CR-only line?
             return vp::fail("accepted:cr-only-line-in-request:as-first-line", "block " + vp::esc(c.block.substr(0, 80)));
         }
+        if ((why == "cr-only-line-in-request" || why == "line-is-not-a-field") && ref.crOnlyLinesAllBeforeContinuation)
+            return vp::fail("accepted:cr-only-line:unfolded-into-the-following-continuation-line", "block " + vp::esc(c.block.substr(0, 80)));
         return vp::fail("accepted:" + why, "block " + vp::esc(c.block.substr(0, 120)));
     }
     if (ref.nulOnlyInDroppedLines) ctx.excluded("NUL only inside an ignored whitespace-preceded first line");
@@ -384,7 +412,7 @@ std::string genName()
 
 std::string genOws()
 {
-    return *rc::gen::weightedElement<std::string>({{8, " "}, {6, ""}, {2, "\t"}, {2, "  "}, {1, " \t "}, {1, "\v"}, {1, "\f"}});
+    return *rc::gen::weightedElement<std::string>({{30, " "}, {20, ""}, {6, "\t"}, {6, "  "}, {3, " \t "}, {1, "\v"}, {1, "\f"}});
 }
 
 std::string genText(const bool dirty)
